@@ -56,8 +56,17 @@ pub fn render_ext(e: &ExtensionsMap) -> String {
         Some(l) => format!("({})", render_li(l)),
         None => "~".to_string(),
     };
+    // the public `other` field (no API of the library writes it; rendered only when something is in it)
+    let other = if e.other.is_empty() {
+        String::new()
+    } else {
+        format!(
+            ";o={}",
+            e.other.iter().map(|(k, v)| format!("{}:{}", esc(k.to_string().as_bytes()), esc_list(v.iter().map(|s| s.as_str())))).collect::<Vec<_>>().join("|")
+        )
+    };
     format!(
-        "ua={};uk={};tl={};tf={};x={};ue={};te={};xe={};ee={}",
+        "ua={};uk={};tl={};tf={};x={};ue={};te={};xe={};ee={}{}",
         esc_list(u.attributes()),
         uk,
         tl,
@@ -66,7 +75,8 @@ pub fn render_ext(e: &ExtensionsMap) -> String {
         u.is_empty() as u8,
         t.is_empty() as u8,
         p.is_empty() as u8,
-        e.is_empty() as u8
+        e.is_empty() as u8,
+        other
     )
 }
 
